@@ -7,7 +7,7 @@
 
 use crate::a64ref::{self, A64Cpu, A64Outcome};
 use crate::fw::*;
-use crate::liftexec::{run_block, IlState, LiftEnd};
+use crate::liftexec::{run_block, run_block_until_branch, IlState, LiftEnd};
 use crate::refeval::Bv;
 use falcon::translator::aarch64::{AArch64, AArch64Eb};
 use falcon::translator::{Options, Translator};
@@ -302,6 +302,207 @@ impl C03 {
     }
 }
 
+// ------------------------------------------------------------------ multi-instruction blocks
+
+fn a64_is_branch(w: u32) -> bool {
+    (w & 0x7c00_0000) == 0x1400_0000 || (w & 0xff00_0010) == 0x5400_0000 || (w & 0x7e00_0000) == 0x3400_0000 || (w & 0x7e00_0000) == 0x3600_0000 || (w & 0xfe00_0000) == 0xd600_0000
+}
+
+fn a64_compare(st: &IlState, cpu: &A64Cpu, il_pc: u64, ref_pc: u64) -> (Vec<String>, Vec<String>) {
+    let mut diffs: Vec<String> = Vec::new();
+    let mut detail: Vec<String> = Vec::new();
+    for i in 0..31 {
+        let got = st.get_u64(&format!("x{}", i));
+        if got != Some(cpu.x[i]) {
+            diffs.push(if i == 30 { "x30".into() } else { "x".into() });
+            detail.push(format!("x{}: expected 0x{:x} got {:?}", i, cpu.x[i], got.map(|g| format!("0x{:x}", g))));
+        }
+    }
+    if st.get_u64("sp") != Some(cpu.sp) {
+        diffs.push("sp".into());
+        detail.push(format!("sp: expected 0x{:x} got {:?}", cpu.sp, st.get_u64("sp").map(|g| format!("0x{:x}", g))));
+    }
+    for (nm, val) in [("n", cpu.n), ("z", cpu.z), ("c", cpu.c), ("v", cpu.v)] {
+        if st.get(nm).map(|b| b.is_one()) != Some(val) {
+            diffs.push(format!("flag_{}", nm));
+            detail.push(format!("{}: expected {} got {:?}", nm, val as u8, st.get(nm).map(|b| b.hex())));
+        }
+    }
+    for i in 0..32 {
+        if st.get(&format!("v{}", i)).and_then(|b| b.to_u128()) != Some(cpu.vreg[i]) {
+            diffs.push("vreg".into());
+            detail.push(format!("v{}: expected 0x{:x} got {:?}", i, cpu.vreg[i], st.get(&format!("v{}", i)).map(|b| b.hex())));
+        }
+    }
+    if st.mem != cpu.mem {
+        diffs.push("mem".into());
+        let d: Vec<String> = cpu.mem.iter().filter(|(a, b)| st.mem.get(*a) != Some(*b)).take(6).map(|(a, b)| format!("[{:x}] expected {:02x} got {:?}", a, b, st.mem.get(a))).collect();
+        detail.push(format!("memory: {:?}", d));
+    }
+    if il_pc != ref_pc {
+        diffs.push("pc".into());
+        detail.push(format!("next pc: expected 0x{:x} got 0x{:x}", ref_pc, il_pc));
+    }
+    diffs.sort();
+    diffs.dedup();
+    (diffs, detail)
+}
+
+impl C03 {
+    /// Straight-line code, a branch and a little more lifted as ONE block; the words the block covers are executed by
+    /// a64ref one at a time (stopping behind the first branch instruction, as the executor stops at a `Branch`
+    /// operation or leaves the block through a successor) and the whole state is compared. Observes what single-
+    /// instruction cases cannot: state carried from one instruction of a block to the next, block-relative addresses.
+    fn block(&self, ctx: &mut Ctx, rng: &mut Rng, big: bool) {
+        let pc: u64 = 0x40_0000 + 4 * rng.below(0x1000);
+        let mut cpu0 = gen_cpu(rng, big);
+        let lift = |bytes: &[u8], at: u64| guard(|| if big { AArch64Eb::new().translate_block(bytes, at, &Options::default()) } else { AArch64::new().translate_block(bytes, at, &Options::default()) });
+        let accepts = |w: u32, at: u64| matches!(lift(&w.to_le_bytes(), at), Ok(Ok(ref b)) if !b.instructions().is_empty());
+        let k = rng.below(7) as usize;
+        let mut words: Vec<u32> = Vec::new();
+        let mut run = cpu0.clone();
+        let mut tries = 0;
+        while words.len() < k && tries < 200 {
+            tries += 1;
+            let (w, _) = gen_word(rng);
+            let a = pc + 4 * words.len() as u64;
+            if a64_is_branch(w) || a64ref::class_of(w).is_none() || !accepts(w, a) {
+                continue;
+            }
+            for _ in 0..3 {
+                let mut t = run.clone();
+                match a64ref::step(&mut t, a, w) {
+                    A64Outcome::Next { pc: n } if n == a + 4 => {
+                        run = t;
+                        words.push(w);
+                        break;
+                    }
+                    A64Outcome::MemFault(f) if f >= 0x100 && f < u64::MAX - 0x1000 => {
+                        for j in 0..80u64 {
+                            let addr = f.wrapping_sub(16).wrapping_add(j);
+                            if !cpu0.mem.contains_key(&addr) {
+                                let v = rng.u64() as u8;
+                                cpu0.mem.insert(addr, v);
+                                run.mem.insert(addr, v);
+                            }
+                        }
+                    }
+                    _ => break,
+                }
+            }
+        }
+        let k = words.len();
+        let mut br = None;
+        for _ in 0..60 {
+            let (w, _) = gen_word(rng);
+            let a = pc + 4 * k as u64;
+            if a64_is_branch(w) && a64ref::class_of(w).is_some() && accepts(w, a) {
+                let mut t = run.clone();
+                if let A64Outcome::Next { .. } = a64ref::step(&mut t, a, w) {
+                    br = Some(w);
+                    break;
+                }
+            }
+        }
+        let br = match br {
+            Some(b) => b,
+            None => return,
+        };
+        let brclass = a64ref::class_of(br).unwrap_or("?");
+        words.push(br);
+        for _ in 0..rng.below(3) {
+            let (w, _) = gen_word(rng);
+            if !a64_is_branch(w) && a64ref::class_of(w).is_some() && accepts(w, pc + 4 * words.len() as u64) {
+                words.push(w);
+            }
+        }
+        let input = |cpu: &A64Cpu| {
+            let mut j = cpu_json(cpu, words[0], pc);
+            j["words"] = json!(words.iter().map(|w| format!("0x{:08x} {}", w, a64ref::class_of(*w).unwrap_or("?"))).collect::<Vec<_>>());
+            j
+        };
+        let mut bytes = Vec::new();
+        for w in &words {
+            bytes.extend_from_slice(&w.to_le_bytes());
+        }
+        ctx.trace(|| format!("a64 block {}", input(&cpu0)));
+        let btr = match lift(&bytes, pc) {
+            Err(p) => {
+                ctx.panic_violation(&format!("lift_block:{}", brclass), &p, input(&cpu0));
+                return;
+            }
+            Ok(Err(_)) => {
+                ctx.count("block.falcon_rejected");
+                return;
+            }
+            Ok(Ok(b)) => b,
+        };
+        ctx.eval();
+        let e_tag = if big { "be" } else { "le" };
+        let mut addrs: Vec<u64> = btr.instructions().iter().map(|(a, _)| *a).collect();
+        addrs.sort();
+        addrs.dedup();
+        let n_cov = addrs.len();
+        if addrs.iter().enumerate().any(|(i, a)| *a != pc + 4 * i as u64) || n_cov > words.len() {
+            ctx.violation(&format!("block:{}:{}:instructions_not_a_prefix_of_the_bytes", brclass, e_tag), json!({"input": input(&cpu0), "addresses": addrs.iter().map(|a| format!("0x{:x}", a)).collect::<Vec<_>>()}));
+            return;
+        }
+        // reference: one instruction at a time over the covered words, stopping behind the first branch instruction
+        let mut cpu = cpu0.clone();
+        let mut ref_pc = pc;
+        for (i, w) in words[..n_cov].iter().enumerate() {
+            let a = pc + 4 * i as u64;
+            match a64ref::step(&mut cpu, a, *w) {
+                A64Outcome::Next { pc: n } => {
+                    ref_pc = n;
+                    if a64_is_branch(*w) {
+                        break;
+                    }
+                }
+                A64Outcome::MemFault(_) if i > k => {
+                    // an instruction behind the branch touches memory nobody mapped: not part of the judged prefix
+                    ctx.count("block.ref_not_defined(skipped)");
+                    return;
+                }
+                _ => {
+                    ctx.count("block.ref_not_defined(skipped)");
+                    return;
+                }
+            }
+        }
+        let mut st = il_state_of(&cpu0);
+        let il_pc = match run_block_until_branch(&btr, &mut st) {
+            LiftEnd::Next(p) => p,
+            other => {
+                let kind = match &other {
+                    LiftEnd::Intrinsic(_) => "intrinsic".to_string(),
+                    LiftEnd::Fault(f) => f.kind().to_string(),
+                    o => format!("{:?}", o).to_lowercase(),
+                };
+                ctx.violation(&format!("block:{}:{}:il_{}", brclass, e_tag, kind), json!({"input": input(&cpu0), "covered_words": n_cov, "il_end": format!("{:?}", other)}));
+                return;
+            }
+        };
+        let (diffs, detail) = a64_compare(&st, &cpu, il_pc, ref_pc);
+        if !diffs.is_empty() {
+            // an instruction that is wrong on its own is reported by the single-instruction cases
+            for w in &words[..n_cov] {
+                let before = ctx.n_violations();
+                let mut r2 = rng.clone();
+                self.one(ctx, &mut r2, *w, "block_probe", big, None);
+                if ctx.n_violations() != before {
+                    ctx.count("block_case_attributed_to_one_instruction");
+                    return;
+                }
+            }
+            ctx.violation(&format!("block:{}:{}:diff={}", brclass, e_tag, diffs.join("+")), json!({"input": input(&cpu0), "covered_words": n_cov, "differences": detail}));
+            return;
+        }
+        ctx.class(&format!("block/{}/{}/cov{}", brclass, e_tag, if n_cov > k { "branch" } else { "prefix" }));
+        ctx.count("block.compared");
+    }
+}
+
 impl Check for C03 {
     fn directed(&self) -> u64 {
         2 + if self.sweep { 64 } else { 0 }
@@ -371,6 +572,9 @@ impl Check for C03 {
                 for _ in 0..16 {
                     let (w, t) = gen_word(rng);
                     self.one(ctx, rng, w, t, big, None);
+                }
+                for _ in 0..3 {
+                    self.block(ctx, rng, big);
                 }
             }
         }
